@@ -1,0 +1,13 @@
+//go:build !verif
+
+// Package verifhook provides verification hook points that compile to nothing unless the `verif` build tag is set.
+package verifhook
+
+// Enabled reports whether the hooks are compiled in.
+const Enabled = false
+
+// Set does nothing without the verif build tag.
+func Set(f func(site string)) {}
+
+// At does nothing without the verif build tag.
+func At(site string) {}
